@@ -535,6 +535,14 @@ func gen(t *rapid.T) Case {
 						g.feats["shared-ref"] = true
 					} else {
 						b := M{"name": "body", "in": "body", "schema": g.schema(2)}
+						if len(params) > 0 && g.chance(3, "bodysharesname") {
+							// a parameter is identified by name and location: the body may share its name
+							// with a path, query or header parameter of the operation
+							if pm, ok := params[0].(M); ok && pm["name"] != nil {
+								b["name"] = pm["name"]
+								g.feats["body-shares-name"] = true
+							}
+						}
 						if g.chance(2, "breq") {
 							b["required"] = true
 						}
